@@ -658,13 +658,45 @@ def apply_new(w, e, cls_qualname, args, kwargs, s):
                 c.rz("TypeError", "unexpected or repeated field %s for %s" % (n, short))
                 return c.outs
             vals[n] = v
+        import ast as _ast
+
         for n, d in fields:
             if n not in vals:
                 if d is None:
                     c.rz("TypeError", "missing field %s for %s" % (n, short))
                     return c.outs
+                if isinstance(d, _ast.Call) and _ast.unparse(d.func) in ("field", "dataclasses.field"):
+                    # field(default=...) / field(default_factory=list)
+                    kw = {k.arg: k.value for k in d.keywords}
+                    if "default" in kw:
+                        d = kw["default"]
+                    elif "default_factory" in kw:
+                        d = _ast.Call(func=kw["default_factory"], args=[], keywords=[])
+                        _ast.copy_location(d, kw["default_factory"])
+                        _ast.fix_missing_locations(d)
+                    else:
+                        c.rz("TypeError", "missing field %s for %s" % (n, short))
+                        return c.outs
                 vals[n] = w.eng.default_term(_ModOnly(ci.mod), d)
-        c.ret(("nt", cls_qualname, tuple(vals[n] for n in names)))
+        rec = ("nt", cls_qualname, tuple(vals[n] for n in names))
+        post = w.prog.find_method(cls_qualname, "__post_init__") if ci.is_dataclass else None
+        if post is not None and post[0] == "repo":
+            from .calls import apply_repo
+
+            for s2, k2, p2 in apply_repo(w, e, post[1], None, (rec,), (), s):
+                c.outs.append((s2, "val", rec) if k2 == "val" else (s2, k2, p2))
+            return c.outs
+        c.ret(rec)
+        return c.outs
+    if ci is not None and ci.is_enum and len(args) == 1 and not kwargs:
+        # Mode("raw"): the member with that value, ValueError if there is none
+        for nm, vnode in ci.enum_members().items():
+            v = w.eng.static_term(ci.mod, vnode)
+            if v is not None and v == args[0]:
+                c.ret(("enum", cls_qualname, nm))
+                return c.outs
+        c.rz("ValueError", "%s(value) for a value that is not a member's" % short, [])
+        c.ret(None, ("type", c.term, frozenset(["obj:" + cls_qualname])))
         return c.outs
     if short in w.prog.exc_parents():
         c.ret(("excobj", short), pure=False)
